@@ -55,6 +55,19 @@ def make_scenarios(rng, tier):
                        {"op": "snapshot", "probe": names, "_active": [], "_done": [a, b]}]
         scs.append(sc)
         sid += 1
+    # the stop tag set in the CONCURRENT stage of the mix model (by pc, next to the held pb): the call ends when its rules have
+    # ended — not when the tag is set — and only then hands its instance and data back
+    for (mn, mx) in [(1, 2), (2, 3)]:
+        sc = {"id": sid, "min": mn, "max": mx, "model": 1, "rules": rules_v(1, kinds={"pc": "stop"}), "steps": []}
+        names = ["pa", "pb", "pc"]
+        a, b = sid * 1000 + 1, sid * 1000 + 2
+        sc["steps"] = [req_step(a, "ExecuteMixModelWithStopTagDirect", names, hold_at="pb"), req_step(b, "ExecuteMixModelWithStopTagDirect", names, hold_at="pb"),
+                       {"op": "sleep", "wait_ms": 30},
+                       {"op": "snapshot", "probe": names, "_active": [a, b], "_done": []},
+                       {"op": "release", "id": b}, {"op": "release", "id": a},
+                       {"op": "snapshot", "probe": names, "_active": [], "_done": [a, b]}]
+        scs.append(sc)
+        sid += 1
     # a request may inject its own object under a name the pool was BUILT with (the api "Tn"): once it has returned nothing of
     # it may be left in the instance, whatever becomes of the api — later requests that do not inject that name follow
     for (mn, mx) in [(1, 2), (2, 3)]:
@@ -158,7 +171,7 @@ def make_scenarios(rng, tier):
 RULE = ("scenarios as C17 (overlap rounds and random walks over pool states) on pools (1,2),(2,3),(2,5) plus every one of the 24 wrapper methods paired on a (1,2) pool, once with sound rules and twice with a failing and a panicking rule next to the held one (continue-on-error with the held rule alone in its stage; stop-on-error with the failing rule in the held rule's stage): max requests held at a gate inside their first rule while snapshots read every instance's data context by reflection; "
         "every request carries a unique id in its own injected object and under a unique key (in eight scenarios also under the name of an api the pool was built with; in two, through the response slot alone of the two-object wrapper); rules echo the id into the returned values and into the request's object; "
         "checked inside Coq: the instances holding request keys are exactly the executing requests, one each; nothing of a returned request is left in any instance; returned maps contain only the caller's id and are unchanged when read again at the end; "
-        "plus two scenarios in which eight requests panic inside the pooled call (nil stop tag) with a snapshot after each; plus four scenarios on pools that were cleared and brought back into service by a full / incremental update; distinct non-trivial = snapshots taken while at least two requests were simultaneously inside a rule")
+        "plus two scenarios in which the stop tag is set in the concurrent stage of the mix model while a sibling rule is held; plus two scenarios in which eight requests panic inside the pooled call (nil stop tag) with a snapshot after each; plus four scenarios on pools that were cleared and brought back into service by a full / incremental update; distinct non-trivial = snapshots taken while at least two requests were simultaneously inside a rule")
 
 
 def main(run):
